@@ -19,9 +19,12 @@ type subscribeTransaction struct {
 	handler *handler1
 	log     util.Logger
 	topicID uint16
+	// topicIDIsNew is false if the topic had been registered before this
+	// subscription.
+	topicIDIsNew bool
 }
 
-func newSubscribeTransaction(ctx context.Context, h *handler1, msgID uint16, topicID uint16) *subscribeTransaction {
+func newSubscribeTransaction(ctx context.Context, h *handler1, msgID uint16, topicID uint16, topicIDIsNew bool) *subscribeTransaction {
 	tLog := h.log.WithTag(fmt.Sprintf("REGISTERc(%d)", msgID))
 	tLog.Debug("Created.")
 	return &subscribeTransaction{
@@ -32,9 +35,10 @@ func newSubscribeTransaction(ctx context.Context, h *handler1, msgID uint16, top
 				tLog.Debug("Deleted.")
 			},
 		),
-		handler: h,
-		log:     tLog,
-		topicID: topicID,
+		handler:      h,
+		log:          tLog,
+		topicID:      topicID,
+		topicIDIsNew: topicIDIsNew,
 	}
 }
 
@@ -58,7 +62,9 @@ func (t *subscribeTransaction) Suback(mqSuback *mqPkts.SubackPacket) error {
 		returnCode = snPkts1.RC_NOT_SUPPORTED
 		// The TopicID registered for this subscription (if any) was not
 		// accepted by the client, hence it must not be used in a PUBLISH.
-		t.handler.registeredTopics.Delete(t.topicID)
+		if t.topicIDIsNew {
+			t.handler.registeredTopics.Delete(t.topicID)
+		}
 		t.Fail(fmt.Errorf("MQTT SUBACK return code: %d", mqSuback.ReturnCodes[0]))
 	}
 	snPkt := snPkts1.NewSuback(t.topicID, returnCode, grantedQOS)
